@@ -5,7 +5,7 @@ use super::facts::facts;
 use super::{Cx, Report};
 use crate::index::TL;
 use crate::log::*;
-use crate::vexec::UNIT;
+use crate::rt::UNIT_NS as UNIT;
 
 const P: &str = "C10";
 
